@@ -110,7 +110,8 @@ func stressAtomicValue(plan []M, out *Out, _ []string) {
 					rng := rand.New(rand.NewSource(int64(num(p, "seed")*100000 + r*100 + t)))
 					<-start
 					for i := 0; i < nops; i++ {
-						op, a, b := ops[rng.Intn(len(ops))], 1+rng.Intn(3), 1+rng.Intn(3)
+						// values 1001..1003: not single bytes, so equal values stored twice live in distinct boxes
+						op, a, b := ops[rng.Intn(len(ops))], 1001+rng.Intn(3), 1001+rng.Intn(3)
 						if logh {
 							recs[t-1] = append(recs[t-1], rec{atomic.AddInt64(&seq, 1), M{"ev": "inv", "t": t, "op": op, "a": a, "b": b}})
 						}
@@ -222,6 +223,9 @@ func countAtomicValue(plan []M, out *Out, _ []string) {
 			if kind == "casinc" {
 				v.Store(1)
 			}
+			if kind == "eqstore" {
+				v.Store(5000)
+			}
 			var wg sync.WaitGroup
 			start := make(chan struct{})
 			for t := 0; t < nt; t++ {
@@ -229,6 +233,22 @@ func countAtomicValue(plan []M, out *Out, _ []string) {
 				go func(t int) {
 					defer wg.Done()
 					<-start
+					if kind == "eqstore" {
+						// the register holds 5000 throughout: goroutine 0 counts CompareAndSwap(5000, 5000) failures while the
+						// others keep storing the very same value
+						if t == 0 {
+							for i := 0; i < nops; i++ {
+								if !v.CompareAndSwap(5000, 5000) {
+									succ[0]++
+								}
+							}
+						} else {
+							for i := 0; i < nops; i++ {
+								v.Store(5000)
+							}
+						}
+						return
+					}
 					for i := 1; i <= nops; i++ {
 						if kind == "swapchain" {
 							rets[t] = append(rets[t], v.Swap((t+1)*100000+i))
@@ -243,6 +263,10 @@ func countAtomicValue(plan []M, out *Out, _ []string) {
 			}
 			close(start)
 			wg.Wait()
+			if kind == "eqstore" {
+				out.Emit(M{"ev": "eqstore", "fails": succ[0], "tries": nops})
+				continue
+			}
 			if kind == "swapchain" {
 				all := []int{}
 				for _, rs := range rets {
